@@ -12,7 +12,7 @@ LEVEL = "fault_enumeration"
 RULE = ("each objective call is a free 4-way choice (return, TimeoutError, RuntimeError, ValueError); all patterns over serial batches "
         "of 1 and 2 designs (94 leaves per design incl. exactly 4 and exactly 5 consecutive failures); for one design additionally "
         "re-sampling draws deviating to 0.0 / 1-2^-53 (<=1 deviation per execution; thorough <=2); boxes incl. negative, tiny, huge, with and without declared "
-        "precision; 2 designs on 2 worker threads under the controlled scheduler with <=2 (thorough 3) deviations (failures + pre-emptions). Non-trivial = at least one injected failure; "
+        "precision; 2 designs on 2 worker threads under the controlled scheduler: every failure pattern (free) x every schedule with <=1 (thorough 2) pre-emptions. Non-trivial = at least one injected failure; "
         "distinct = distinct fault/draw sequences per configuration.")
 ASSUMPTIONS = ["the objective's exceptions are raised by the harness wrapper before the objective body runs",
                "in-box tolerance 1e-12 relative, or half the declared precision"]
@@ -179,7 +179,7 @@ def _shard(shard, col: Collector):
     if shard[0] == "parallel":
         # failures inside parallel workers: 2 designs on 2 workers under the controlled scheduler (C07's harness)
         from . import c07
-        body = c07.body_factory(2, False, False, True, None)
+        body = c07.body_factory(2, False, False, "free", None)
 
         def on_exec2(ctx, out):
             if any(c != 0 for c in ctx.choices):
@@ -202,7 +202,7 @@ def _shard(shard, col: Collector):
 def replay(sub, case):
     if sub == "parallel":
         from . import c07
-        ctx, out = run_once(c07.body_factory(2, False, False, True, None), case["choices"])
+        ctx, out = run_once(c07.body_factory(2, False, False, "free", None), case["choices"])
         return out
     body = body_factory(case["cfg"], case["nbatch"], case["extreme"], case["seed"])
     ctx, out = run_once(body, case["choices"])
@@ -216,7 +216,7 @@ def run(tier, seed):
         shards.append((cfg, 1, True, 2 if tier == "thorough" else 1, seed))
     shards.append(("unit", 2, False, None, seed))
     shards.append(("neg_prec", 2, False, None, seed))
-    shards.append(("parallel", 3 if tier == "thorough" else 2))
+    shards.append(("parallel", 2 if tier == "thorough" else 1))
     if tier == "thorough":
         shards.append(("tiny_huge", 2, False, None, seed))
         shards.append(("far_prec", 2, False, None, seed))
